@@ -290,8 +290,49 @@ def unit_native(tier="quick", seed=0):
     bad = [(i, j) for i, si in enumerate(r.inputs) for j, so in enumerate(r.outputs) if j < 3 and r[si, so] != r.array[i, j]]
     if bad or len(r.outputs) != 3:
         fails.append((dict(case="caller edits the lists passed to the constructor"), f"pair indexing no longer agrees with the array at {bad[:3]}; outputs now {len(r.outputs)}"))
+    # reporting methods (dataframe with small / large thresholds, with and without conversion to probabilities, printing, mappings) are read-only: the
+    # result returns the same values through the array, pair indexing and nested indexing afterwards
+    import contextlib
+    import io
+    from lightworks.emulator.results import SamplingResult
+    for rtype, A in (("probability", np.array([[0.004, 0.5, 0.496], [0.3, 0.009, 0.691]])),
+                     ("probability_amplitude", np.array([[0.005 + 0.002j, 0.7j, 0.5], [0.3, 0.001j, 0.9 - 0.004j]]))):
+        r = SimulationResult(A.copy(), rtype, inputs=list(ins), outputs=list(outs)[:3])
+        calls = [("display_as_dataframe()", lambda: r.display_as_dataframe()), ("display_as_dataframe(threshold=0.01)", lambda: r.display_as_dataframe(threshold=0.01)),
+                 ("display_as_dataframe(0.01, conv_to_probability=True)", lambda: r.display_as_dataframe(threshold=0.01, conv_to_probability=True)),
+                 ("print_outputs()", lambda: r.print_outputs()), ("print_outputs(rounding=1)", lambda: r.print_outputs(rounding=1))]
+        if rtype == "probability":
+            calls += [("apply_threshold_mapping()", lambda: r.apply_threshold_mapping()), ("apply_parity_mapping(invert=True)", lambda: r.apply_parity_mapping(invert=True))]
+        for what, call in calls:
+            n += 1
+            try:
+                with contextlib.redirect_stdout(io.StringIO()):
+                    call()
+            except Exception as e:  # noqa: BLE001
+                fails.append((dict(result_type=rtype, call=what), f"raised {type(e).__name__}: {e}"))
+                continue
+            bad = [(i, j) for i, si in enumerate(r.inputs) for j, so in enumerate(r.outputs)
+                   if not (r[si, so] == A[i, j] and r[si][so] == A[i, j] and r.array[i, j] == A[i, j])]
+            if bad:
+                fails.append((dict(result_type=rtype, call=what), f"after {what} the result no longer returns the values it was built from at {bad[:3]} "
+                                                                  f"(array {r.array[bad[0]]}, pair {r[r.inputs[bad[0][0]], r.outputs[bad[0][1]]]}, built from {A[bad[0]]})"))
+                break
+    counts = {lw.State([1, 0]): 3, lw.State([0, 1]): 1200, lw.State([2, 0]): 7}
+    sr = SamplingResult(dict(counts), lw.State([1, 1]))
+    for what, call in (("display_as_dataframe(threshold=0.01)", lambda: sr.display_as_dataframe(threshold=0.01)), ("print_outputs()", lambda: sr.print_outputs()),
+                       ("apply_threshold_mapping()", lambda: sr.apply_threshold_mapping()), ("apply_parity_mapping()", lambda: sr.apply_parity_mapping())):
+        n += 1
+        try:
+            with contextlib.redirect_stdout(io.StringIO()):
+                call()
+        except Exception as e:  # noqa: BLE001
+            fails.append((dict(result="SamplingResult", call=what), f"raised {type(e).__name__}: {e}"))
+            continue
+        if {tuple(k.s): sr[k] for k in sr.outputs} != {tuple(k.s): v for k, v in counts.items()}:
+            fails.append((dict(result="SamplingResult", call=what), f"after {what} the sampling result no longer returns the counts it was built from"))
+            break
     o = dict(name="lightworks/emulator/results/simulation_result.py:SimulationResult#bnd.native-values", kind="bnd", cases=n, result="bounded-fail" if fails else "bounded-pass",
-             backend="native numpy values", ms=0, note="complex / negative values keep each input's total under both mappings; lists passed to the constructor are not shared")
+             backend="native numpy values", ms=0, note="complex / negative values keep each input's total under both mappings; lists passed to the constructor are not shared; reporting methods are read-only")
     if fails:
         o["failing_cases"] = [str(f[0]) for f in fails]
         o["model"] = dict(case=fails[0][0], observed=fails[0][1], n_failing=len(fails))
